@@ -40,7 +40,7 @@ def match_starts(pat, wd):
 PENDING = []       # inconsistencies met by `evaluate`; drained into failures by Ctx.case / Ctx.drain
 
 
-def evaluate(cls, wd, feats=(), topology=None):
+def evaluate(cls, wd, feats=(), topology=None, container=None):
     """(verdict, up, down, target, placeholder, target-features) on the real code; verdict in
     valid / invalid / illegal / exc:<name>.  The same entity object is then asked again: its answers must not
     drift (an object that says invalid and then hands out overhangs, or whose second target differs from its
@@ -48,6 +48,10 @@ def evaluate(cls, wd, feats=(), topology=None):
     rec = impl.mk_record(CRec(0, wd, list(feats), []))
     if topology is not None:
         rec.annotations["topology"] = topology        # "circular" in any letter case is what GenBank files may say
+    if container == "seqrecord":
+        # the plasmid as Bio.SeqIO hands it over: a plain SeqRecord that declares its topology
+        rec = impl.SeqRecord(rec.seq, id=rec.id, name=rec.name, features=list(rec.features),
+                             annotations=dict(rec.annotations, topology=topology or "circular"))
     ent = cls(rec)
     try:
         ok = ent.is_valid()
